@@ -5,4 +5,6 @@ cd "$(dirname "$0")"
 export CARGO_NET_OFFLINE=true
 (cd tools/vx-extract && cargo build --release --offline)
 mkdir -p .cache .work evidence replays
+cp /repo/Cargo.lock replay/Cargo.lock 2>/dev/null || true
+(cd replay && CARGO_TARGET_DIR="$PWD/../.cache/replay-target" cargo build --offline --quiet) || echo "warning: replay crate did not build"
 echo "setup ok"
